@@ -2,6 +2,7 @@
 import itertools
 
 from mc.core import Res
+from mc import adapt as A
 from mc import keys as K
 from mc import recips as R
 from refpgp import enc as renc, keys as rkeys, wire, sig as rsig, tpk
@@ -94,7 +95,7 @@ def components(key):
 
 def private_fields_zero(key):
     for c in components(key):
-        km = c._key.keymaterial
+        km = A.key_material(c)
         for f in km.__privfields__:
             if int(getattr(km, f)) != 0:
                 return False, '%s.%s' % (c.fingerprint.keyid, f)
@@ -267,7 +268,7 @@ class Prop(object):
                         if not target.is_unlocked:
                             probs.append('%s: not unlocked inside the scope' % target_name)
                         for c, raw in zip(components(target), raws):
-                            km = c._key.keymaterial
+                            km = A.key_material(c)
                             got = [int(getattr(km, f)) for f in km.__privfields__]
                             if got != rkeys.secret_ints(raw):
                                 probs.append('%s: unlocked secret integers differ for %s' % (target_name, raw['name']))
@@ -330,7 +331,7 @@ class Prop(object):
                     except NotImplementedError:
                         pass
                     with key.unlock(pw):
-                        km = key._key.keymaterial
+                        km = A.key_material(key)
                         got = [int(getattr(km, f)) for f in km.__privfields__]
                         if got != rkeys.secret_ints(raw):
                             probs.append('unlocked secret integers differ from the encoded ones')
@@ -397,7 +398,7 @@ class Prop(object):
                     r.transitions += 1
                 with key.unlock(G.PASS.decode()):
                     for c, raw in zip(components(key), raws):
-                        km = c._key.keymaterial
+                        km = A.key_material(c)
                         if [int(getattr(km, x)) for x in km.__privfields__] != rkeys.secret_ints(raw):
                             probs.append('unlocked secret integers differ from those the reference recovers')
                     probs += self._sign_and_check(key, [x for x in raws], r)
